@@ -101,7 +101,7 @@ TR_SCRIPTS = [
     ('RF64?\n', {'0': ['ok', 'f64:9221120237041090560']}), ('RF64?\n', {'0': ['ok', 'f64:9218868437227405312']}), ('RF64?\n', {'0': ['ok', 'f64:18442240474082181120']}),
     ('RF64?\n', {'0': ['ok', 'f64:4591870180066957722']}), ('RF64?\n', {'0': ['ok', 'f64:1']}), ('RF64?\n', {'0': ['ok', 'f64:9218868437227405311']}),
     ('RF64?\n', {'0': ['ok', 'f64:4890909195324358656']}), ('RF64?\n', {'0': ['ok', 'f64:4457293557087583675']}),
-    ('RST?\n', {'0': ['ok', 'str:' + b'say "hi"'.hex()]}), ('RST?\n', {'0': ['ok', 'str:']}), ('RHS?\n', {'0': ['ok', 'str:' + b'a"b'.hex()]}),
+    ('RST?\n', {'0': ['ok', 'str:' + b'say "hi"'.hex()]}), ('RST?\n', {'0': ['ok', 'str:' + '25 °C "Ω"'.encode().hex()]}), ('RHS?\n', {'0': ['ok', 'str:' + 'µ"'.encode().hex()]}), ('RST?\n', {'0': ['ok', 'str:']}), ('RHS?\n', {'0': ['ok', 'str:' + b'a"b'.hex()]}),
     ('RAR?\n', {'0': ['ok', 'bytes:']}), ('RAR?\n', {'0': ['ok', 'bytes:' + bytes(range(12)).hex()]}), ('RAR?\n', {'0': ['ok', 'bytes:0a']}),
     ('RCH?\n', {'0': ['ok', 'str:' + b'MAX'.hex()]}), ('RER?\n', {'0': ['ok', 'err:-113']}),
     ('RT2?\n', {'0': ['ok', 'tuple:[int:3;str:' + b'x,y'.hex() + ']']}), ('RT3?\n', {'0': ['ok', 'tuple:[int:-7;bool:1;int:0]']}),
